@@ -149,9 +149,15 @@ def inputs(mutator, rng, n):  # noqa: C901
             r = rng.random()
             if r < 0.25:
                 rule = {'obj': pick(rng, ['CSSStyleRule', 'CSSImportRule', 'CSSCharsetRule', 'CSSNamespaceRule',
+                                          'CSSNamespaceRule', 'CSSNamespaceRule',
                                           'CSSMediaRule', 'CSSPageRule', 'CSSFontFaceRule', 'CSSComment',
                                           'CSSUnknownRule', 'MarginRule', 'CSSVariablesRule', 'CSSImportRuleBad'])}
                 tag = 'obj:' + rule['obj']
+                if rule['obj'] == 'CSSNamespaceRule' and rng.random() < 0.8:
+                    # same / other prefix x same / other URI as the namespaces the generated sheets declare
+                    rule['kw'] = {'prefix': pick(rng, ['p', 'q', 'r', 'n', '']),
+                                  'namespaceURI': pick(rng, ['http://p', 'http://d', 'http://q', 'http://n'])}
+                    tag = 'obj:CSSNamespaceRule:%s' % ('same' if rule['kw']['prefix'] == 'p' else 'other')
             elif r < 0.4:
                 k = rng.randrange(1, 3)
                 goods = [pick(rng, ['a { top: 0 }', 'b { left: 0 }', '/*c*/', '@media print { a { top: 0 } }'])
